@@ -5,6 +5,7 @@ import (
 	"bytes"
 	"encoding/json"
 	"errors"
+	"fmt"
 	"io"
 	"io/fs"
 	"os"
@@ -44,6 +45,9 @@ type cpJobOut struct {
 	Res       cpInfoOut // ResolveHostSourcePath(src, follow): Path, Rebase, Err
 	Dst       cpInfoOut // CopyInfoDestinationPath(dst)
 	Probed    bool      // the read-only probes left the world untouched
+	// the producing half of the split API on a source that is not there (removed between the two steps of a copy,
+	// or never there): error class and the number of bytes the stream gave when it gave one
+	TarAbsent [2]string
 }
 
 // cpErrClass maps an error onto the classes the documentation of the table distinguishes
@@ -104,6 +108,20 @@ func runCopyJob(j *Job, res *JobResult) {
 	out.Res = cpInfoOut{Path: rp, Rebase: rb, Err: cpErrText(err), Class: cpErrClass(err)}
 	di, err := archive.CopyInfoDestinationPath(dst)
 	out.Dst = cpInfoOut{Path: di.Path, Exists: di.Exists, IsDir: di.IsDir, Rebase: di.RebaseName, Err: cpErrText(err), Class: cpErrClass(err)}
+
+	absent := func(rc io.ReadCloser, err error) string {
+		if err != nil {
+			return cpErrClass(err)
+		}
+		n, rerr := io.Copy(io.Discard, rc)
+		rc.Close()
+		if rerr != nil {
+			return cpErrClass(rerr)
+		}
+		return fmt.Sprintf("no error, a stream of %d bytes", n)
+	}
+	out.TarAbsent[0] = absent(archive.TarResource(archive.CopyInfo{Path: "/w/zz-absent-source"}))
+	out.TarAbsent[1] = absent(archive.TarResourceRebase("/w/zz-absent-dir/zz-absent-source", "x"))
 
 	out.Before, err = scanWorld("/w")
 	if err != nil {
